@@ -29,7 +29,10 @@ RULE = ("histories on goal regions of 0..4 goal states (0: correspondence only),
         "positions as float64 / int / float32 arrays; steps: is_reached via GoalRegion / PlanningProblem.goal / PlanningProblemSet, "
         "repeated queries on one state object, goal_reached on trajectories of 0..8 states (duck-typed and real Trajectory, reaching "
         "state first / last / several / none, called before or after the single queries), state_list setter (new, same object, copy) "
-        "and in-place list edits, attribute replacement / removal / interval-end setters, shape setters, translate_rotate on goal / "
+        "and in-place list edits, attribute replacement / removal / interval-end setters, shape setters (array-valued ones - Rectangle.center, "
+        "Circle.center, Polygon.vertices - with a new array, by augmented assignment, or by in-place writes into the array the getter hands "
+        "out followed by assignment of that same object; each shape edit is preceded by a query the old goal accepts and followed by one "
+        "whose answer the edit changes), translate_rotate on goal / "
         "problem / set level (pure translations exact and predicted by the model, rotations judged with a band), goal setter, "
         "whole-scene motions (scenario or lanelet network and planning problem set moved by the same motion, either order) on goal "
         "regions read from XML / protobuf files or built in memory from the lanelets' own polygon objects, one Shape object shared by "
@@ -68,7 +71,10 @@ REQUIRED_BUCKETS = ["state/PMState", "state/KSState", "state/KSTState", "state/S
                     "hist/tr/level/pps", "hist/set_goal", "hist/swap/deepcopy", "hist/swap/pickle", "hist/fail/bad_list",
                     "hist/fail/int_time", "hist/fail/bad_angle", "hist/fail/bad_end", "hist/fail-then-query", "hist/ro/hash",
                     "hist/ro/eq", "hist/ro/str", "hist/query-after-edit", "corr/moved", "file/xml", "file/pb", "file/mem",
-                    "file/lanelet-goal-moved", "hist/tr_all/scn_first", "hist/tr_all/pps_first", "goal/aliased-shape"]
+                    "file/lanelet-goal-moved", "hist/tr_all/scn_first", "hist/tr_all/pps_first", "goal/aliased-shape",
+                    "hist/pos_edit/iadd/Rectangle.center", "hist/pos_edit/iadd/Circle.center", "hist/pos_edit/iadd/Polygon.vertices",
+                    "hist/pos_edit/inplace/Rectangle.center", "hist/pos_edit/inplace/Circle.center",
+                    "hist/pos_edit/inplace/Polygon.vertices", "hist/pos_edit/in-place-after-query"]
 
 BAND = Fraction(1, 10 ** 9)
 BAND_INEXACT = Fraction(1, 10 ** 8)
@@ -177,16 +183,20 @@ DIMENSIONS = {
     "Rectangle": {
         "ctor": {"length": V + "dyadic grid; int", "width": V + "see length", "center": V + "given / omitted (default centre); "
                  "float or int array", "orientation": V + "0 (given / omitted), pi/2, arbitrary"},
-        "members": {"length": V + "pos_edit step (setter on the live goal shape)", "width": V + "pos_edit", "center": V + "pos_edit",
+        "members": {"length": V + "pos_edit step (setter on the live goal shape)", "width": V + "pos_edit", "center": V + "pos_edit: a new array, or the array the getter "
+                    "hands out changed in place and the same object assigned back (`+=` / item writes + setter), before and after a "
+                    "query that used the shape",
                     "orientation": V + "pos_edit", "contains_point": V + "called by is_reached",
                     "translate_rotate": V + "tr steps"}},
     "Circle": {
         "ctor": {"radius": V + "dyadic grid; int", "center": V + "given / omitted"},
-        "members": {"radius": V + "pos_edit", "center": V + "pos_edit", "contains_point": V + "called by is_reached",
+        "members": {"radius": V + "pos_edit", "center": V + "pos_edit (new array / in place + same object assigned back)",
+                    "contains_point": V + "called by is_reached",
                     "translate_rotate": V + "tr steps"}},
     "Polygon": {
         "ctor": {"vertices": V + "3..7 grid vertices, either orientation, ring closed or open, float or int array"},
-        "members": {"vertices": V + "pos_edit (setter on the live goal shape)", "contains_point": V + "called by is_reached",
+        "members": {"vertices": V + "pos_edit (setter on the live goal shape: a new array, or the array the getter hands out moved in "
+                    "place and the same object assigned back)", "contains_point": V + "called by is_reached",
                     "translate_rotate": V + "tr steps"}},
     "ShapeGroup": {
         "ctor": {"shapes": V + "0..3 members, nested group member, repeated member"},
@@ -1080,6 +1090,7 @@ class World:
         self.stale = None       # name of the shape setter after which a goal shape answers from an outdated cache
         self.edited = False
         self.failed_op = False
+        self.queried = False    # some is_reached / goal_reached has run (lazily computed shape data may exist)
 
     def goal(self, via):
         if via == "pp":
@@ -1144,6 +1155,7 @@ def do_query(ctx, W, st, via, sub, times=1, sobj=None):
     goal = W.goal(via)
     want, amb, res = oracle_state(W.specs, st)
     impl, r = None, None
+    W.queried = True
     for n in range(times):
         r = call(goal.is_reached, sobj)
         cur = _ans(r)
@@ -1217,6 +1229,7 @@ def do_traj(ctx, W, step, sub):
             traj = t[1]
             ctx.tag("traj/real")
     first = call(W.problem(via).goal_reached, traj) if step.get("fresh") else None
+    W.queried = W.queried or bool(objs)
     answers = [do_query(ctx, W, s, "goal", sub, sobj=o) for s, o in zip(sts, objs)]
     r = first if first is not None else call(W.problem(via).goal_reached, traj)
     ctx.tag("via/" + via)
@@ -1306,7 +1319,38 @@ def do_edit(ctx, W, step):
     elif op == "pos_edit":
         ctx.tag("hist/pos_edit")
         sh, v = _goal_shape(W, step), step["val"]
-        setattr(sh, step["attr"], np.array(v, dtype=float) if step["attr"] in ("center", "vertices") else v)
+        attr, mode = step["attr"], step.get("mode", "assign")
+        if mode != "assign":
+            # array-valued attribute changed IN PLACE: the getter hands out the stored array, the caller writes into it and then
+            # tells the object by assigning that same array object back (iadd: `shape.attr += delta` does exactly this)
+            cur = getattr(sh, attr)
+            g0 = W.specs[step["i"]]["pos"]
+            sp0 = g0 if step.get("j") is None else g0["s"][step["j"]]
+            old = np.array(sp0["c" if attr == "center" else "v"], dtype=float)
+            d = np.array(v, dtype=float) - old          # the offset that carries the shape as it is to the new value
+            if attr == "vertices":
+                if old.shape != d.shape or not np.array_equal(d, np.broadcast_to(d[0], d.shape)):
+                    mode = "assign"         # not a common offset of all vertices: given as a new array
+                d = d[0]
+            if cur.dtype.kind != "f" and not (np.array_equal(d, np.trunc(d)) and np.array_equal(np.array(v, dtype=float), np.trunc(np.array(v, dtype=float)))):
+                mode = "assign"             # a fractional value cannot be written into an integer array
+        if mode == "assign":
+            setattr(sh, attr, np.array(v, dtype=float) if attr in ("center", "vertices") else v)
+        elif mode == "iadd":
+            if attr == "center":
+                sh.center += d.astype(cur.dtype)
+            else:
+                sh.vertices += d.astype(cur.dtype)
+        else:
+            if attr == "center":
+                cur[0], cur[1] = v[0], v[1]
+            else:
+                cur[...] = cur + d.astype(cur.dtype)
+            setattr(sh, attr, cur)
+        if attr in ("center", "vertices"):
+            ctx.tag(f"hist/pos_edit/{mode}/{type(sh).__name__}.{attr}")
+            if mode != "assign" and W.queried:
+                ctx.tag("hist/pos_edit/in-place-after-query")
         W.dirty()
         if W.stale is None and shape_is_stale(G.state_list[step["i"]].position):
             W.stale = f"{type(sh).__name__}.{step['attr']}"
@@ -1439,7 +1483,7 @@ class FileWorld(World):
         self.pid = (case.get("pp") or {}).get("id", 1)
         pps = PlanningProblemSet([PlanningProblem(self.pid, _initial_state(), G)])
         self.snap = self.moved = self.stale = None
-        self.edited = self.failed_op = False
+        self.edited = self.failed_op = self.queried = False
         if fmt == "mem":
             self.scenario, self.PPS, self.PP, self.G = sc, pps, pps.find_planning_problem_by_id(self.pid), G
             return
@@ -1560,6 +1604,22 @@ def gen_query(r, specs, via=None):
     return q
 
 
+def decisive(before, after, st):
+    """the two goal definitions give different sure answers for the state"""
+    a, b = oracle_state(before, st), oracle_state(after, st)
+    return not a[1] and not b[1] and "ok" in a[0] and "ok" in b[0] and a[0] != b[0]
+
+
+def pick_query(r, pools, pred, tries=12):
+    """a query step with a state (drawn near the constraint boundaries of one of the goal lists) that satisfies pred; None if
+    none of `tries` candidates does"""
+    for _ in range(tries):
+        st = gen_state(r, r.choice(pools), complete=r.random() < 0.5)
+        if pred(norm_state(st)):
+            return {"op": "q", "st": st, "via": r.choice(["goal", "goal", "pp", "pps"])}
+    return None
+
+
 def make_real(sts):
     """states a real Trajectory accepts: one class, one attribute set, natural int time steps"""
     keys = set.intersection(*[set(k for k in ("pos", "v", "th", "vy") if k in s) for s in sts])
@@ -1628,7 +1688,7 @@ def gen_edit(r, specs):
     n = len(specs)
     kinds = ["set_list"] * 3 + ["tr"] * 4 + ["fail"] * 2 + ["ro"] * 2 + ["set_goal", "swap"]
     if n:
-        kinds += ["set_attr"] * 4 + ([] if any("alias_of" in g for g in specs) else ["pos_edit"] * 3)
+        kinds += ["set_attr"] * 4 + ([] if any("alias_of" in g for g in specs) else ["pos_edit"] * 4)
     op = r.choice(kinds)
     if op == "set_list":
         how = r.choice(["setter_new", "setter_new", "setter_same", "setter_copy", "append", "append", "insert0", "reverse"]
@@ -1671,7 +1731,7 @@ def gen_edit(r, specs):
         i, j, sp = r.choice(cands)
         step = {"op": op, "i": i, "j": j}
         if sp["k"] == "rect":
-            a = r.choice(["length", "width", "center", "orientation"])
+            a = r.choice(["length", "width", "center", "center", "orientation"])
             v = {"length": r.randint(1, 160) / 16.0, "width": r.randint(1, 96) / 16.0, "center": [grid(r), grid(r)],
                  "orientation": r.choice([0.0, math.pi / 2, 0.3, -1.2])}[a]
         elif sp["k"] == "circ":
@@ -1680,6 +1740,17 @@ def gen_edit(r, specs):
         else:
             a, v = "vertices", geom.gen_shape(r, kinds=("poly",))["v"]
         step.update(attr=a, val=v)
+        if a in ("center", "vertices"):
+            # how the new array value reaches the object: a new array (assign), or the array the getter hands out is changed
+            # in place and the same object is assigned back (iadd: augmented assignment; inplace: item / slice writes + setter)
+            mode = r.choice(["assign", "iadd", "iadd", "inplace", "inplace"])
+            if mode != "assign":
+                whole = sp.get("ints") or r.random() < 0.3
+                d = [float(r.randint(-12, 12)), float(r.randint(-12, 12))] if whole else [grid(r, 160), grid(r, 160)]
+                if r.random() < 0.3:
+                    d[r.randrange(2)] = 0.0                     # one coordinate only
+                v = [sp["c"][0] + d[0], sp["c"][1] + d[1]] if a == "center" else [[x + d[0], y + d[1]] for x, y in sp["v"]]
+                step.update(val=v, mode=mode)
         return step
     if op == "tr":
         a = r.choice([0, 0, 0, 0.0, math.pi / 2, -math.pi / 2, math.pi, 0.3, -1.2, r.uniform(-6.2, 6.2), 1])
@@ -1730,8 +1801,21 @@ def gen_case(ctx):
             steps.append(gen_query(r, specs))          # fills whatever is computed lazily before the edit
         for _ in range(r.randint(1, 4)):
             e = gen_edit(r, specs)
-            steps.append(e)
-            specs = spec_apply(specs, e)
+            after = spec_apply(specs, e)
+            if e["op"] == "pos_edit":
+                # an edited goal shape: ask first a state the goal as it is accepts (the position test of that shape has then
+                # run: whatever it computes lazily exists), edit, then ask a state whose answer the edit changes
+                goal_i = [specs[e["i"]]]
+                q = pick_query(r, [goal_i], lambda st: oracle_state(goal_i, st)[0] == {"ok": True})
+                if q is not None and r.random() < 0.8:
+                    steps.append(q)
+                steps.append(e)
+                q = pick_query(r, [after, specs, [after[e["i"]]], goal_i], lambda st: decisive(specs, after, st))
+                if q is not None:
+                    steps.append(q)
+            else:
+                steps.append(e)
+            specs = after
             if r.random() < 0.7:
                 steps.append(gen_query(r, specs) if r.random() < 0.8 else gen_traj(r, specs))
         if steps[-1]["op"] not in ("q", "traj"):
